@@ -548,6 +548,7 @@ static int ev_ops(const char *op, const char *args) {
 	}
 	if (!strcmp(op, "mkready")) { sscanf(args, "%d", &u); LOGEV("\"e\":\"mkready\",\"u\":%d", u); (void)!__real_write(g_evo[u].wfd, "x", 1); return 1; }
 	if (!strcmp(op, "drain")) { sscanf(args, "%d", &u); char bb[256]; while (__real_read(g_evo[u].rfd, bb, sizeof(bb)) > 0) ; LOGEV("\"e\":\"drained\",\"u\":%d", u); return 1; }
+	if (!strcmp(op, "peershut")) { sscanf(args, "%d", &u); LOGEV("\"e\":\"peerclose\",\"u\":%d", u); shutdown(g_evo[u].wfd, SHUT_WR); return 1; } /* half close: the peer sent FIN, the descriptor stays open */
 	if (!strcmp(op, "peerclose")) { sscanf(args, "%d", &u); LOGEV("\"e\":\"peerclose\",\"u\":%d", u); __real_close(g_evo[u].wfd); g_evo[u].wfd = -1; return 1; }
 	if (!strcmp(op, "evreopen")) { /* close the pipe WITHOUT deleting the registration, open a new one: the descriptor numbers are reused, tp_udata keeps its state */
 		sscanf(args, "%d", &u); evo_t *o = &g_evo[u];
